@@ -196,6 +196,40 @@ def run(ctx: Ctx):
     tv = ast.unparse(vo.node)
     terms = ["distance_weight * state.total_distance()", "vehicle_weight * state.vehicles_used()", "tw_penalty * state.time_window_violation()", "capacity_penalty * state.capacity_violation()", "sync_penalty * state.sync_violation()", "unassigned_penalty * len(state.unassigned)"]
     ctx.ob("C18-O4", "R18 table", vo, "objective is the documented weighted sum of distance, vehicles, time-window, capacity, sync and unassigned terms of that state", all(f"obj += {t}" in tv for t in terms) and "obj = 0.0" in tv and tv.rstrip().endswith("return obj"), "", node=vo.node)
+    # the scorers read the primary state only (routes, arrival times, unassigned, problem data): bookkeeping that only
+    # some operators maintain (sync_assignments) is not what the documented sum is defined over
+    PRIMARY = {"customers", "vehicles", "routes", "arrival_times", "unassigned", "_dist"}
+    scorers = ["total_distance", "vehicles_used", "time_window_violation", "capacity_violation", "sync_violation"]
+    seen_m, work, reads = set(), list(scorers), {}
+    while work:
+        mname = work.pop()
+        if mname in seen_m or not ctx.repo.has_func("vrp", f"VRPState.{mname}"):
+            continue
+        seen_m.add(mname)
+        mf = ctx.func("vrp", f"VRPState.{mname}")
+        for n in ast.walk(mf.node):
+            if isinstance(n, ast.Attribute) and isinstance(n.value, ast.Name) and n.value.id == "self":
+                if ctx.repo.has_func("vrp", f"VRPState.{n.attr}"):
+                    work.append(n.attr)
+                else:
+                    reads.setdefault(n.attr, (mf, n))
+    ctx.floor("VRP scorer methods", len(seen_m), 5)
+    foreign = sorted(set(reads) - PRIMARY)
+    ctx.ob("C18-O4", "R7 EVALUATOR-EXCLUSIVE", reads[foreign[0]][0] if foreign else vo, "the terms of the objective are computed from routes, arrival times, unassigned set and problem data only", not foreign, f"reads self.{foreign[0]}: operators that do not maintain it (random/worst/related removal, greedy/regret insertion) leave it stale, and the score is then not the documented sum of the state" if foreign else "", node=reads[foreign[0]][1] if foreign else vo.node)
+    # solve_vrptw hands back what alns publishes: the best state with the objective of that state
+    al = ctx.func("lns", "alns")
+    a_sites = result_sites(al)
+    ctx.floor("Result sites in alns", len(a_sites), 2)
+    for k_, s_ in enumerate(a_sites):
+        o = s_.arg("objective")
+        ot = ast.unparse(o)
+        if isinstance(o, ast.Name):
+            ds = [ast.unparse(d.value) for d in own_nodes(al.node) if isinstance(d, ast.Assign) and any(ast.unparse(t) == o.id for t in d.targets)]
+            for d in own_nodes(al.node):
+                if isinstance(d, ast.Assign) and isinstance(d.targets[0], ast.Tuple) and isinstance(d.value, ast.Tuple) and len(d.targets[0].elts) == len(d.value.elts):
+                    ds += [ast.unparse(v) for t, v in zip(d.targets[0].elts, d.value.elts) if ast.unparse(t) == o.id]
+            ot = ds[0] if len(set(ds)) == 1 else f"{o.id} <- {sorted(set(ds))}"
+        ctx.ob("C18-O4", "R5 PAIRING", al, f"alns Result#{k_} publishes the best state with the objective of that state", ast.unparse(s_.arg("solution")) == "best_solution" and ot == "evaluate.to_user(best_obj)", f"solution `{ast.unparse(s_.arg('solution'))}`, objective `{ot}`", node=s_.call)
     ops_d = [n for n in own_nodes(sv.node) if isinstance(n, (ast.Assign, ast.AnnAssign)) and ast.unparse(n.targets[0] if isinstance(n, ast.Assign) else n.target) == "destroy_ops"]
     used = ast.unparse(ops_d[0].value) if ops_d else ""
     ctx.ob("C18-O4", "R18 table", sv, "the search uses the exported removal and insertion operators", all(x in ast.unparse(sv.node) for x in REMOVALS + INSERTIONS), "", node=sv.node)
@@ -221,6 +255,30 @@ def _v_route_removal_original(tree):
 def _v_sync_overwrite(tree):
     g = M.find_func(tree, "sync_aware_insertion")
     M.replace_stmt(g, lambda s: isinstance(s, ast.AugAssign) and M.src_is(s.target, "state.unassigned") and isinstance(s.op, ast.Sub), M.stmts("state.unassigned = set(single)"))
+
+
+def _v_sync_scan_recorded(tree):
+    g = M.find_func(tree, "VRPState.sync_violation")
+    M.replace_stmt(g, lambda s: isinstance(s, ast.For) and M.src_is(s.iter, "enumerate(self.routes)"), lambda s: M.stmts("recorded = self.sync_assignments.get(cid)\ncandidates = range(len(self.routes)) if recorded is None else sorted(recorded)") + [s])
+    M.replace_expr(g, lambda e: M.src_is(e, "enumerate(self.routes)"), M.expr("((v, self.routes[v]) for v in candidates)"))
+
+
+def _v_alns_reports_current(tree):
+    g = M.find_func(tree, "alns")
+    rets = [n for n in ast.walk(g) if isinstance(n, ast.Return) and isinstance(n.value, ast.Call) and M.src_has(n.value, "evaluate.to_user(best_obj)")]
+    if not rets:
+        raise M.Skip("early return not found")
+    rets[0].value.args[1] = M.expr("evaluate.to_user(current_obj)")
+
+
+def _t_alns_hoisted_user_values(tree):
+    """equally valid: user-sense values hoisted into locals, the best one is published"""
+    g = M.find_func(tree, "alns")
+    rets = [n for n in ast.walk(g) if isinstance(n, ast.Return) and isinstance(n.value, ast.Call) and M.src_has(n.value, "evaluate.to_user(best_obj)")]
+    if not rets:
+        raise M.Skip("early return not found")
+    rets[0].value.args[1] = M.expr("best_user")
+    M.replace_stmt(g, lambda s: isinstance(s, ast.If) and any(r in ast.walk(s) for r in rets[:1]), lambda s: M.stmts("cur_user, best_user = (evaluate.to_user(current_obj), evaluate.to_user(best_obj))") + [s])
 
 
 def _v_no_copy(tree):
@@ -292,6 +350,9 @@ VARIANTS = [
     M.Variant("best makespan updated without its schedule", JS, _v_best_stale, "C18-O1"),
     M.Variant("loop variable unbound for zero iterations (original defect)", JS, _v_iteration_unbound, "C18-O1"),
     M.Variant("objective closure drops the caller's penalties", VR, _v_objective_weights, "C18-O4"),
+    M.Variant("sync_violation scans only the vehicles recorded in sync_assignments (seed C18-D)", VR, _v_sync_scan_recorded, "C18-O4"),
+    M.Variant("alns early stop reports the current objective with the best state (seed C18-C)", "solvor/lns.py", _v_alns_reports_current, "C18-O4"),
+    M.Variant("twin: alns hoists the user-sense values and publishes the best one", "solvor/lns.py", _t_alns_hoisted_user_values, None),
     M.Variant("twin: reformat job_shop", JS, _t_reformat, None),
     M.Variant("twin: reformat vrp", VR, _t_reformat, None),
 ]
